@@ -589,4 +589,4 @@ def run_case(case, res):
         run_gen(case, res)
     else:
         rng = random.Random("c08/%s/%s" % (case["seed"], case["name"]))
-        Sweep(PScenario(case), res, "vt", case["name"], gran=case.get("gran", "line")).run(case["cap"], rng, per_site=2)
+        Sweep(PScenario(case), res, "vt", case["name"], gran=case.get("gran")).run(case["cap"], rng, per_site=2)
